@@ -160,7 +160,7 @@ def install():
             mode = H.outmode.get(ref, 'launch+exit')
             self._outmode = mode
             snap = H.on_launch(job, self) if H.on_launch else None
-            ev('launch', ref=ref, n=idx, snap=snap)
+            ev('launch', ref=ref, n=idx, snap=snap, via=('restart' if 'outputFile' not in kw else 'repeat'))
             if mode == 'launch+exit':
                 VFS.write(job.workingDirectory.directory)
 
